@@ -1,0 +1,35 @@
+//go:build verif
+
+package edwards25519
+
+import (
+	"crypto/sha512"
+
+	"go.dedis.ch/kyber/v4"
+)
+
+// Verification hooks (build tag `verif` only; nothing here is compiled into normal builds).
+// They expose the package-private pieces of the RFC 9380 hash-to-curve pipeline so that an external
+// harness can compare each of them with the field-level model.
+
+// VerifMapToCurveElligator2 runs mapToCurveElligator2Ed25519 on the field element whose
+// little-endian encoding is u (loaded by feFromBytes, as hashToField does through feFromBn).
+func VerifMapToCurveElligator2(u [32]byte) kyber.Point {
+	var fe fieldElement
+	feFromBytes(&fe, u[:])
+	return mapToCurveElligator2Ed25519(fe)
+}
+
+// VerifHashToField returns the little-endian encodings of the two field elements
+// hashToField(m, dst, 2) yields.
+func VerifHashToField(m []byte, dst string) (u0, u1 [32]byte) {
+	u := hashToField(m, dst, 2)
+	feToBytes(&u0, &u[0])
+	feToBytes(&u1, &u[1])
+	return u0, u1
+}
+
+// VerifExpandMessageXMD is expandMessageXMD with SHA-512.
+func VerifExpandMessageXMD(m []byte, dst string, byteLen uint64) ([]byte, error) {
+	return expandMessageXMD(sha512.New(), m, dst, byteLen)
+}
